@@ -215,6 +215,8 @@ mod imp {
 
         if c.from_str {
             // an encoding fixed by constructing the reader from a string is not overridden
+            // also with a leading U+FEFF (the string form of a byte-order mark)
+            let doc = if c.bom { format!("\u{feff}{}", doc) } else { doc.clone() };
             let mut r = Reader::from_str(&doc);
             apply_cfg(r.config_mut(), NEUTRAL);
             loop {
